@@ -118,12 +118,18 @@ func (s *Server) Run(ctx context.Context) error {
 // Shutdown is used to stop the http listener and close the backend store.
 func (s *Server) Shutdown(ctx context.Context) error {
 	s.mu.Lock()
-	defer s.mu.Unlock()
-	if s.httpServer == nil {
+	hs := s.httpServer
+	s.mu.Unlock()
+	if hs == nil {
 		return fmt.Errorf("server is not running")
 	}
-	err := s.httpServer.Shutdown(ctx)
-	s.httpServer = nil
+	// the lock is not held while waiting for the requests to finish, they take it for the rate limit
+	err := hs.Shutdown(ctx)
+	s.mu.Lock()
+	defer s.mu.Unlock()
+	if s.httpServer == hs {
+		s.httpServer = nil
+	}
 	if err != nil {
 		return err
 	}
